@@ -26,6 +26,31 @@ pub struct Case15 {
     /// index into `legacy_values(class, legacy)`
     pub value: usize,
     pub explicit_new: bool,
+    /// spelling under which the explicit new value is carried (None = the canonical new name;
+    /// Some(alias) e.g. Color3uint8 for Color, which is how a Roblox-written file spells it)
+    #[serde(default)]
+    pub new_spelling: Option<String>,
+}
+
+/// alias spellings of `new_name` reachable for `class`
+fn alias_spellings(class: &str, new_name: &str) -> Vec<String> {
+    let mut out = Vec::new();
+    if let Some(chain) = specdb::class_chain(class) {
+        for c in chain {
+            for (p, _) in c.properties.iter() {
+                if p.as_ref() != new_name {
+                    if let Lookup::Known(k) = specdb::lookup(class, p) {
+                        if k.via_alias && k.canonical == new_name && !matches!(k.ser, Ser::Migrate { .. }) {
+                            out.push(p.to_string());
+                        }
+                    }
+                }
+            }
+        }
+    }
+    out.sort();
+    out.dedup();
+    out
 }
 
 fn empty_db() -> &'static ReflectionDatabase<'static> {
@@ -187,7 +212,11 @@ pub fn judge(c: &Case15) -> Vec<(String, String)> {
         },
         _ => return out,
     };
-    let tag = format!("{}->{}", c.legacy, new_name);
+    let tag = match &c.new_spelling {
+        None => format!("{}->{}", c.legacy, new_name),
+        Some(sp) => format!("{}->{}(as {})", c.legacy, new_name, sp),
+    };
+    let spelled = c.new_spelling.clone().unwrap_or_else(|| new_name.clone());
     // reference: PropertyMigration::perform called directly
     let direct = match migration.perform(&legacy_value) {
         Ok(v) => v,
@@ -205,11 +234,11 @@ pub fn judge(c: &Case15) -> Vec<(String, String)> {
     let build = |legacy_first: bool| -> WeakDom {
         let mut b = InstanceBuilder::new(c.class.as_str()).with_name("subject");
         if c.explicit_new && !legacy_first {
-            b = b.with_property(new_name.as_str(), explicit.clone());
+            b = b.with_property(spelled.as_str(), explicit.clone());
         }
         b = b.with_property(c.legacy.as_str(), legacy_value.clone());
         if c.explicit_new && legacy_first {
-            b = b.with_property(new_name.as_str(), explicit.clone());
+            b = b.with_property(spelled.as_str(), explicit.clone());
         }
         WeakDom::new(InstanceBuilder::new("DataModel").with_child(b))
     };
@@ -265,7 +294,7 @@ pub fn judge(c: &Case15) -> Vec<(String, String)> {
                 Ok(()) => {
                     let mut files = vec![("file-order".to_owned(), buf.clone())];
                     if c.explicit_new {
-                        if let Some(sw) = swap_prop_chunks(&buf, &c.legacy, &new_name) {
+                        if let Some(sw) = swap_prop_chunks(&buf, &c.legacy, &spelled) {
                             files.push(("swapped-order".to_owned(), sw));
                         } else {
                             v.push(("read-binary/swapped-order".to_owned(), Err("harness: could not swap PROP chunks".into())));
@@ -290,7 +319,7 @@ pub fn judge(c: &Case15) -> Vec<(String, String)> {
                     let text = String::from_utf8_lossy(&buf).to_string();
                     let mut files = vec![("file-order".to_owned(), text.clone())];
                     if c.explicit_new {
-                        if let Some(sw) = swap_xml_props(&text, &c.legacy, &new_name) {
+                        if let Some(sw) = swap_xml_props(&text, &c.legacy, &spelled) {
                             files.push(("swapped-order".to_owned(), sw));
                         } else {
                             v.push(("read-xml/swapped-order".to_owned(), Err("harness: could not swap XML properties".into())));
@@ -348,7 +377,14 @@ pub fn cases() -> Vec<Case15> {
         let n = legacy_values(&class, &legacy).len();
         for value in 0..n {
             for explicit_new in [false, true] {
-                out.push(Case15 { class: class.clone(), legacy: legacy.clone(), value, explicit_new });
+                out.push(Case15 { class: class.clone(), legacy: legacy.clone(), value, explicit_new, new_spelling: None });
+            }
+            if let Lookup::Known(k) = specdb::lookup(&class, &legacy) {
+                if let Ser::Migrate { to, .. } = &k.ser {
+                    for sp in alias_spellings(&class, to) {
+                        out.push(Case15 { class: class.clone(), legacy: legacy.clone(), value, explicit_new: true, new_spelling: Some(sp) });
+                    }
+                }
             }
         }
     }
